@@ -153,7 +153,20 @@ impl C16 {
                 return (d.clone(), l, n.clone());
             }
         }
-        let spec = elfgen::gen_spec(rng, true);
+        let mut spec = elfgen::gen_spec(rng, true);
+        // headers the loader treats specially (outside C15's claimed space, well inside C16's): TLS over a load segment,
+        // RELRO, DYNAMIC, GNU_STACK with odd flags, unknown types
+        for _ in 0..rng.below(3) {
+            let s = rng.pick(&spec.segs).clone();
+            let fs = (s.data.len() as u64).min(0x20);
+            match rng.below(6) {
+                0 | 1 => spec.extra.push((elfgen::PT_TLS, 4, s.vaddr, fs, fs + rng.below(0x40))),
+                2 => spec.extra.push((elfgen::PT_GNU_RELRO, 4, s.vaddr, fs, fs)),
+                3 => spec.extra.push((elfgen::PT_DYNAMIC, 6, s.vaddr, fs, fs)),
+                4 => spec.extra.push((elfgen::PT_GNU_STACK, rng.below(8) as u32, 0, 0, 0)),
+                _ => spec.extra.push((0x6000_0000 + rng.below(16) as u32, 4, s.vaddr, fs, fs)),
+            }
+        }
         let (bytes, l) = elfgen::write_elf_layout(&spec);
         (bytes, l, "generated".to_string())
     }
@@ -207,6 +220,20 @@ impl Monitor for C16 {
                 }
                 what.push(format!("{} random bytes with ELF magic", n));
                 sigkey = "random-with-magic".into();
+            }
+            3 => {
+                // the same field of EVERY program header gets the same value (cooperating headers, e.g. LOAD + TLS)
+                let names = ["p_vaddr", "p_memsz", "p_filesz", "p_offset", "p_type", "p_flags"];
+                let name = *rng.pick(&names);
+                let fs: Vec<Field> = fields(&bytes, &layout).into_iter().filter(|f| f.name == name).collect();
+                if let Some(f0) = fs.first() {
+                    let (v, class) = mutate_value(rng, rd(&bytes, f0.off, f0.size), f0.size, flen);
+                    for f in &fs {
+                        wr(&mut bytes, f.off, f.size, v);
+                    }
+                    what.push(format!("every {} := {:#x} [{}]", name, v, class));
+                    sigkey = format!("all-{}={}", name, class);
+                }
             }
             2 => {
                 // random byte flips anywhere
